@@ -23,6 +23,10 @@
 (* dir): the harness puts the real output of prev into the directory, runs    *)
 (* the input there and demands exp, valid Go and the bytes the same input     *)
 (* gives in a fresh directory.                                                *)
+(* The input of a run is more than document and arguments: deco names the     *)
+(* attributes the schema file carries besides (AttributeBlind: exp does not   *)
+(* depend on it), route how the generator is invoked (InvocationBlind: the    *)
+(* observations of one input under all routes are one).                       *)
 (*                                                                            *)
 (* Documents: 0..MaxObjs objects, 0..MaxProps properties each (every shape);  *)
 (* the properties take their types from the cyclic sequence Kinds (every type *)
@@ -46,8 +50,10 @@ VARIABLES v,         \* the input [doc, args]
           par,       \* the parameters v.doc was made from [sch, n, counts, r] (constant along a behaviour)
           seen,      \* Observe: input -> first observation
           nobs,      \* number of observations so far (saturates at 2)
-          dir        \* the input whose output the directory's typedef_output.go holds (NoFile: none)
-vars == <<v, par, seen, nobs, dir>>
+          dir,       \* the input whose output the directory's typedef_output.go holds (NoFile: none)
+          deco,      \* the attributes the schema files of this behaviour carry (Codegen!Decos; constant)
+          route      \* how the NEXT run is invoked (Codegen!Routes)
+vars == <<v, par, seen, nobs, dir, deco, route>>
 
 \* ------------------------------------------------------------------ names (abstraction table)
 \* name -> title-cased form, lower-cased form; checked by the harness against the standard library
@@ -154,6 +160,22 @@ PrevInputs ==
                        args |-> v.args]}
                 ELSE {})
 
+\* ------------------------------------------------------------------ attributes and invocation
+\* Every input is decorated: one decoration per input, going round Decos with the document and
+\* the argument form; and for the documents of SeqSchemes x SeqRots without an argument EVERY
+\* decoration (the same document under all of them: AttributeBlind on one input).
+DecoSeq == <<"bare", "limits", "attributes", "full">>
+ASSUME Range(DecoSeq) = Decos
+PickDeco(p, a) == DecoSeq[((p.r + Before(p.counts, p.n + 1) + p.n + (IF a.form = "no_ignore" THEN 0 ELSE 1)) % 4) + 1]
+DecosFor(p, a) == IF p.sch \in SeqSchemes /\ p.r \in SeqRots /\ a.form = "no_ignore" THEN Decos ELSE {PickDeco(p, a)}
+
+\* The first run of the fullest document of every size (SeqSchemes x SeqRots) is also made under
+\* every other route - Invoke -, the runs after it by the pre-built binary again: a history
+\* across routes, of which Observe accepts what it accepts of any other (InvocationBlind).
+RoutesFor(p) == IF p.sch \in SeqSchemes /\ p.r \in SeqRots /\ (\A i \in 1..p.n : p.counts[i] = MaxProps)
+                THEN Routes ELSE {"binary"}
+Key == ObsKey(v.doc, v.args, deco, route)
+
 \* what became of the directory's schema file between the earlier run and the first run of v
 SchemaFile == IF dir = NoFile THEN "written"
               ELSE IF dir.doc = v.doc THEN "untouched"   \* only the arguments differ
@@ -163,33 +185,45 @@ SchemaFile == IF dir = NoFile THEN "written"
 Init ==
     \E sch \in Schemes : \E n \in 0..MaxObjs : \E counts \in [1..n -> 0..MaxProps] :
     \E r \in (IF sch = "plain" THEN Rots ELSE RotsAlt) : \E a \in ArgForms(sch, n) :
+    \E d \in DecosFor([sch |-> sch, n |-> n, counts |-> counts, r |-> r], a) :
         /\ v = [doc |-> MkDoc(sch, n, counts, r), args |-> a]
         /\ par = [sch |-> sch, n |-> n, counts |-> counts, r |-> r]
         /\ seen = NoObs
         /\ nobs = 0
         /\ dir = NoFile
+        /\ deco = d
+        /\ route = "binary"
 
 \* an earlier run of another input in this directory has left its output
 Prepare(w) ==
-    /\ nobs = 0 /\ dir = NoFile
+    /\ nobs = 0 /\ dir = NoFile /\ route = "binary" /\ deco = PickDeco(par, v.args)
     /\ dir' = w
-    /\ UNCHANGED <<v, par, seen, nobs>>
+    /\ UNCHANGED <<v, par, seen, nobs, deco, route>>
 
-\* a run: what is accepted does not depend on dir; afterwards the file holds this input's output
+\* the first run is invoked another way
+Invoke(rt) ==
+    /\ nobs = 0 /\ dir = NoFile /\ route = "binary" /\ deco = PickDeco(par, v.args)
+    /\ route' = rt
+    /\ UNCHANGED <<v, par, seen, nobs, dir, deco>>
+
+\* a run: what is accepted depends neither on dir nor on route (Key has no route); afterwards
+\* the file holds this input's output, and the next run is made by the pre-built binary
 Observe(out) ==
     /\ nobs < 2
-    /\ ObsAccepts(seen, v, out)
-    /\ seen' = ObsRecord(seen, v, out)
+    /\ ObsAccepts(seen, Key, out)
+    /\ seen' = ObsRecord(seen, Key, out)
     /\ nobs' = nobs + 1
     /\ dir' = v
-    /\ UNCHANGED <<v, par>>
+    /\ route' = "binary"
+    /\ UNCHANGED <<v, par, deco>>
 
 Next == \/ \E out \in Outs(v.doc, v.args) : Observe(out)
         \/ \E w \in PrevInputs : Prepare(w)
+        \/ \E rt \in RoutesFor(par) \ {"binary"} : Invoke(rt)
 Spec == Init /\ [][Next]_vars
 
-\* "Running it again on the same input produces byte-identical output"
-Stable == [][Observed(seen, v) => seen' = seen]_vars
+\* "Running it again on the same input produces byte-identical output" - however it is invoked
+Stable == [][Observed(seen, Key) => seen' = seen]_vars
 
 \* ------------------------------------------------------------------ the property on the model
 DropFirst(out) == SubSeq(out, 2, Len(out))
@@ -198,13 +232,20 @@ ModelOK ==
         args == v.args
         live == Live(doc, args)
     IN /\ WF(doc)
+       \* the two blindness laws: the demand ignores the attributes, the record of an
+       \* observation ignores the invocation
+       /\ deco \in Decos /\ route \in Routes
+       /\ AttributeBlind(doc, args) /\ Expected(doc, args, deco) = Gen(doc, args)
+       /\ InvocationBlind(doc, args, deco) /\ Key = ObsKey(doc, args, deco, "binary")
+       /\ (nobs = 0 /\ (route # "binary" \/ dir # NoFile)) => deco = PickDeco(par, args)
+       /\ nobs > 0 => route = "binary"
        /\ Shape(doc) \in {"empty", "single", "multi", "multi_casevariant"}
        \* the directory: fresh or holding another input's output before the first run, this
        \* input's own output after it
        /\ nobs = 0 => dir = NoFile \/ (dir # v /\ WF(dir.doc) /\ dir.args.form \in {"no_ignore", "with_ignore"})
        /\ nobs = 0 => (SchemaFile = "untouched" <=> (dir # NoFile /\ dir.args # v.args /\ dir.doc = v.doc))
        /\ nobs > 0 => dir = v
-       /\ (nobs = 0 /\ dir = NoFile) =>
+       /\ (nobs = 0 /\ dir = NoFile /\ route = "binary" /\ deco = PickDeco(par, args)) =>
             \* exactly one struct per non-ignored object, one field per property
             /\ Cardinality(Gen(doc, args)) = Cardinality(live)
             /\ \A i \in live : \E g \in Gen(doc, args) :
@@ -239,13 +280,14 @@ ModelOK ==
                        /\ ~CaseVariants(doc) => /\ Verdict(doc, args, idt) = "wrong_field_type"
                                                 /\ WrongTypeOf(doc, args, idt) \in {q.tid : q \in carried}
                                                 /\ WrongTypeCarriesId(doc, args, idt)
-       /\ Observed(seen, v) => Meets(doc, args, seen[v])
+       /\ Observed(seen, Key) => Meets(doc, args, seen[Key])
 
-\* one vector per state before the first run: the input, what the directory holds (prev; its
-\* args.form is "fresh" for a fresh directory) and the structs Gen demands
+\* one vector per state before the first run: the input (document, arguments, decoration), how
+\* the run is invoked, what the directory holds (prev; its args.form is "fresh" for a fresh
+\* directory) and the structs demanded
 Export ==
     nobs = 0 => Emit([doc |-> v.doc, args |-> v.args, shape |-> Shape(v.doc),
                       sat |-> Satisfiable(v.doc, v.args),
-                      exp |-> [structs |-> Gen(v.doc, v.args)],
-                      prev |-> dir, schema |-> SchemaFile])
+                      exp |-> [structs |-> Expected(v.doc, v.args, deco)],
+                      prev |-> dir, schema |-> SchemaFile, deco |-> deco, route |-> route])
 =============================================================================
